@@ -1,0 +1,69 @@
+//! Verification hooks, compiled only with the cargo feature `verif_hooks`
+//! (off by default). They let a test harness observe and schedule the
+//! acquisitions of the thread-safe shared cells (`MutArc`) and a few other
+//! shared accesses. With no hooks registered every function here falls
+//! through to the ordinary behaviour.
+use once_cell::sync::OnceCell;
+use std::sync::{Mutex, MutexGuard, TryLockError};
+
+/// What a thread is about to do / has done with the lock at `addr`.
+#[derive(Clone, Copy, Debug, PartialEq, Eq)]
+pub enum LockEvent {
+  /// about to acquire; returning `false` means "this thread is not under
+  /// control": the acquisition then blocks in the ordinary way
+  Before,
+  /// `try_lock` found the lock held; called again after every failed attempt
+  Blocked,
+  /// the lock has been acquired
+  Acquired,
+}
+
+pub trait Hooks: Send + Sync {
+  fn lock(&self, ev: LockEvent, addr: usize) -> bool;
+  fn yield_point(&self, site: &'static str);
+}
+
+static HOOKS: OnceCell<Box<dyn Hooks>> = OnceCell::new();
+
+/// Registers the process-wide hooks (first registration wins).
+pub fn set_hooks(h: Box<dyn Hooks>) -> bool {
+  HOOKS.set(h).is_ok()
+}
+
+/// A shared access outside a lock (atomic flag, waker registration).
+#[inline]
+pub fn yield_point(site: &'static str) {
+  if let Some(h) = HOOKS.get() {
+    h.yield_point(site)
+  }
+}
+
+/// `m.lock().unwrap()` with the acquisition reported to the hooks; a
+/// controlled thread never blocks inside the mutex, it polls `try_lock` and
+/// reports `Blocked` instead, so that a deadlock is observable.
+pub fn lock<T>(m: &Mutex<T>) -> MutexGuard<'_, T> {
+  let hooks = match HOOKS.get() {
+    Some(h) => h,
+    None => return m.lock().unwrap(),
+  };
+  let addr = m as *const Mutex<T> as *const () as usize;
+  if !hooks.lock(LockEvent::Before, addr) {
+    return m.lock().unwrap();
+  }
+  loop {
+    match m.try_lock() {
+      Ok(g) => {
+        hooks.lock(LockEvent::Acquired, addr);
+        return g;
+      }
+      Err(TryLockError::WouldBlock) => {
+        hooks.lock(LockEvent::Blocked, addr);
+      }
+      Err(TryLockError::Poisoned(e)) => {
+        // same outcome as `lock().unwrap()` on a poisoned mutex
+        drop(e);
+        return m.lock().unwrap();
+      }
+    }
+  }
+}
